@@ -38,16 +38,17 @@ const GENERATION = "v2"
 // KT describes one key type to the monitor.  Canon / KeyCanon / FromTree / Tree are the reference side: they are
 // written against the protocol, not against the library.
 type KT[K comparable] struct {
-	Name     string
-	Pool     func(rng *rand.Rand, n int) []K      // n hostile keys, pairwise different under key equality
-	Canon    func(K) string                       // full identity, parameters included
-	KeyCanon func(K) string                       // identity under key equality (complex keys: key part only)
-	Tree     func(K) any                          // reference wire tree: string leaf or map[string]any
-	FromTree func(tree any) (string, error)       // Canon of a key parsed from the wire
-	Twin     func(k K, rng *rand.Rand) (K, bool)  // a key equal to k under key equality, as a different Go value if the type allows
-	AltTrees func(k K, rng *rand.Rand) []any      // other trees denoting a key equal to k (complex keys: other / no params)
-	Hash     func(K) uint32                       // the library's bucket hash, only used to construct colliding keys
-	Collide  func(rng *rand.Rand, want int) [][]K // groups of pairwise different keys with equal Hash
+	Name       string
+	Pool       func(rng *rand.Rand, n int) []K      // n hostile keys, pairwise different under key equality
+	Canon      func(K) string                       // full identity, parameters included
+	KeyCanon   func(K) string                       // identity under key equality (complex keys: key part only)
+	Tree       func(K) any                          // reference wire tree: string leaf or map[string]any
+	FromTree   func(tree any) (string, error)       // Canon of a key parsed from the wire
+	Twin       func(k K, rng *rand.Rand) (K, bool)  // a key equal to k under key equality, as a different Go value if the type allows
+	AltTrees   func(k K, rng *rand.Rand) []any      // other trees denoting a key equal to k (complex keys: other / no params)
+	Hash       func(K) uint32                       // the library's bucket hash, only used to construct colliding keys
+	Collide    func(rng *rand.Rand, want int) [][]K // groups of pairwise different keys with equal Hash
+	Incomplete func(K) any                          // the wire tree of k without one of its required key members (complex keys)
 }
 
 // ---------------------------------------------------------------------------------------------
@@ -620,6 +621,11 @@ func HKKT() KT[*HK] {
 		},
 		Hash: func(k *HK) uint32 { return uint32(k.ComputeComplexKeyHash().MapKey()) },
 	}
+	kt.Incomplete = func(k *HK) any {
+		m := hkTree(k).(map[string]any)
+		delete(m, "name")
+		return m
+	}
 	kt.Collide = func(rng *rand.Rand, want int) [][]*HK {
 		return FindCollisions(want, 400000, func(i int) *HK {
 			return &HK{Name: MixName(i), N: int64(i % 3)}
@@ -907,10 +913,20 @@ func RunType[K comparable](run *ev.Run, rng *rand.Rand, kt KT[K], cases int) {
 					extra = &cand[0]
 				}
 			}
+			var extraTree any
 			if extra != nil {
+				extraTree = kt.Tree(*extra)
+			}
+			if kt.Incomplete != nil && len(keys) > 0 && rng.Intn(3) == 0 {
+				// a key that lacks a required member: it was never requested either, and cannot be attributed to a caller's key
+				extraTree = kt.Incomplete(keys[rng.Intn(len(keys))])
+				kind += "+incomplete-key"
+				run.Count(GENERATION+"."+kt.Name+".incomplete_key_replies", 1)
+			}
+			if extraTree != nil {
 				st, sh := style()
 				tag++
-				me := mention{idx: -1, text: EncodeKeyTree(kt.Tree(*extra), st, sh, rng), tag: tag}
+				me := mention{idx: -1, text: EncodeKeyTree(extraTree, st, sh, rng), tag: tag}
 				switch rng.Intn(3) {
 				case 0:
 					p.results = append(p.results, me)
